@@ -88,6 +88,10 @@ def check_loop(fnode, loop, xvars, accs, dedup_ok=True, extra_sink=None):
             if isinstance(n, ast.Assign) and isinstance(n.targets[0], ast.Name) and any(norm(x) in accs or (isinstance(x, ast.Name) and x.id in acc_derived) for x in ast.walk(n.value)):
                 acc_derived.add(n.targets[0].id)
 
+    def is_acc(t):
+        # the accumulator, a part of it, or a name bound in the loop to one of its elements (`prev = m[-1]`)
+        return bool(target_text_root(t, accs) or target_root(t) in accs or (isinstance(t, (ast.Attribute, ast.Subscript)) and target_root(t) in acc_derived))
+
     def is_sink(stmt):
         if stmt is None:
             return False
@@ -97,12 +101,12 @@ def check_loop(fnode, loop, xvars, accs, dedup_ok=True, extra_sink=None):
             c = stmt.value
             if c.func.attr in ("append", "extend", "insert", "add", "update", "addtomap", "appendleft", "__setitem__", "setdefault", "write"):
                 recv = c.func.value
-                if target_text_root(recv, accs) or target_root(recv) in accs:
+                if is_acc(recv):
                     if any(names_in(a) & tainted for a in c.args) or any(names_in(k.value) & tainted for k in c.keywords):
                         return True
         if isinstance(stmt, ast.Assign):
             for t in stmt.targets:
-                if isinstance(t, (ast.Subscript, ast.Attribute)) and (target_text_root(t, accs) or target_root(t) in accs):
+                if isinstance(t, (ast.Subscript, ast.Attribute)) and is_acc(t):
                     if names_in(stmt.value) & tainted:
                         return True
                     # key derived from x counts as well (acc[k] = f(...)) only if value or key tainted
@@ -110,7 +114,7 @@ def check_loop(fnode, loop, xvars, accs, dedup_ok=True, extra_sink=None):
                         return True
         if isinstance(stmt, ast.AugAssign):
             t = stmt.target
-            if (target_text_root(t, accs) or target_root(t) in accs) and (names_in(stmt.value) & tainted):
+            if is_acc(t) and (names_in(stmt.value) & tainted):
                 return True
         if isinstance(stmt, (ast.Yield,)):
             return False
